@@ -24,6 +24,7 @@ let table : (Stdlib.String.t * (z list -> z list)) list = [   (* Stdlib.: the ex
   ("refload", run_refload);
   ("paths", run_paths);
   ("href", run_href);
+  ("idfrag", run_idfrag);
   ("enum", run_enum);
   ("proxy", run_proxy);
   ("staticdecl", run_staticdecl);
